@@ -29,3 +29,7 @@ def run(repo, res, tier):
     # the lexer's character step: total at the ends of the text, keeps every character that is not grammar white space
     from .. import lexsim as _ls
     _ls.rule_comment_kind(repo, res)
+    # units expressions: the PVL/ISIS writers put any units text between the delimiters, so the default reader takes every
+    # delimiter-free interior -- the empty one included
+    from .. import langrules as _lr2
+    _lr2.rule_units_lang(repo, res, _lr2.analyse(repo))
